@@ -271,7 +271,7 @@ class ContractMixin:
             tail = cname.split(".", 1)[1] if kind == "raises" and "." in cname else cname
             head = tail.split(".")[0]
             tags = [t for t in head.split("+") if len(t) >= 3 and t[0] == "C" and t[1:].isdigit()]
-            if tags and pf not in tags:
+            if tags and not (set(tags) & set(getattr(self, "prop_tags", None) or [pf])):
                 return
         try:
             goal = self.spec_bool(text, st, fr, "assert", extra)
